@@ -123,8 +123,9 @@ pub fn build(seed: u64, rec: &mut Recorder) -> World {
     w.positions.insert(xb.clone(), info);
     let ix = w.ix_increase(&xb, "U1", 1_000_000_000, u64::MAX, u64::MAX, false);
     w.must_ix(&ix);
-    // rewards: P1 index 0 (R) and 1 (C), P2 index 0 (R)
-    for (pool, idx, mint) in [("P1", 0u8, "R"), ("P1", 1, "C"), ("P2", 0, "R")] {
+    // rewards: P1 index 0 (R), 1 (C) and 2 (R again: two reward slots of one pool over the SAME mint), P2 index 0 (R) and
+    // 1 (B, the pool's own token A): a vault must be told from another by its address, not by its mint
+    for (pool, idx, mint) in [("P1", 0u8, "R"), ("P1", 1, "C"), ("P1", 2, "R"), ("P2", 0, "R"), ("P2", 1, "B")] {
         let ix = w.ix_init_reward(pool, idx, mint, false);
         w.must_ix(&ix);
         let vault = w.pools[pool].rewards[idx as usize].1;
@@ -452,6 +453,11 @@ pub fn run(cfg: &MatrixCfg, rec: &mut Recorder) {
     { let ix = w.ix_update_fees("X1"); step(&mut w, rec, cfg, &mut n, ix); }
     { let ix = w.ix_collect_reward("X1", "U1", 0, false); step(&mut w, rec, cfg, &mut n, ix); }
     { let ix = w.ix_collect_reward("X1", "U1", 1, true); step(&mut w, rec, cfg, &mut n, ix); }
+    { let ix = w.ix_collect_reward("X1", "U1", 2, true); step(&mut w, rec, cfg, &mut n, ix); }
+    { let ix = w.ix_collect_reward("X1", "U1", 2, false); step(&mut w, rec, cfg, &mut n, ix); }
+    { let ix = w.ix_update_fees("X3"); step(&mut w, rec, cfg, &mut n, ix); }
+    { let ix = w.ix_collect_reward("X3", "U1", 1, true); step(&mut w, rec, cfg, &mut n, ix); }
+    { let ix = w.ix_collect_reward("X3", "U1", 1, false); step(&mut w, rec, cfg, &mut n, ix); }
     { let ix = w.ix_reposition("X2", "U2", -320, 320, 4_000_000_000, 0, 0, u64::MAX, u64::MAX); step(&mut w, rec, cfg, &mut n, ix); }
     // ... and one that only pays out (tiny new liquidity: both tokens flow from the vaults to the owner, so no token
     // transfer needs the owner's signature - the program's own authority check is all that stands)
@@ -470,7 +476,7 @@ pub fn run(cfg: &MatrixCfg, rec: &mut Recorder) {
     // ---- rewards administration
     { let ix = w.ix_set_reward_emissions("P1", 0, 500u128 << 64, false); step(&mut w, rec, cfg, &mut n, ix); }
     { let ix = w.ix_set_reward_emissions("P2", 0, 700u128 << 64, true); step(&mut w, rec, cfg, &mut n, ix); }
-    let ix = w.ix_init_reward("P2", 1, "C", true);
+    let ix = w.ix_init_reward("P2", 2, "C", true);
     step(&mut w, rec, cfg, &mut n, ix);
     { let ix = w.ix_set_reward_authority("P1", 0, "U3"); step(&mut w, rec, cfg, &mut n, ix); }
     { let ix = w.ix_set_reward_authority_by_super("P1", 0, "rewardAuthC1"); step(&mut w, rec, cfg, &mut n, ix); }
@@ -524,6 +530,7 @@ pub fn run(cfg: &MatrixCfg, rec: &mut Recorder) {
         { let ix = w.ix_collect_fees(pos, user, false); step(&mut w, rec, cfg, &mut n, ix); }
     }
     { let ix = w.ix_collect_reward("X3", "U1", 0, false); step(&mut w, rec, cfg, &mut n, ix); }
+    { let ix = w.ix_collect_reward("X3", "U1", 1, false); step(&mut w, rec, cfg, &mut n, ix); }
     { let ix = w.ix_close_position("X3", "U1"); step(&mut w, rec, cfg, &mut n, ix); }
     { let ix = w.ix_reset_range("X5", "U1", -256, 256); step(&mut w, rec, cfg, &mut n, ix); }
     // bundled position: empty, close, delete bundle
@@ -532,6 +539,7 @@ pub fn run(cfg: &MatrixCfg, rec: &mut Recorder) {
     { let ix = w.ix_collect_fees("X9", "U1", false); step(&mut w, rec, cfg, &mut n, ix); }
     { let ix = w.ix_collect_reward("X9", "U1", 0, false); step(&mut w, rec, cfg, &mut n, ix); }
     { let ix = w.ix_collect_reward("X9", "U1", 1, false); step(&mut w, rec, cfg, &mut n, ix); }
+    { let ix = w.ix_collect_reward("X9", "U1", 2, false); step(&mut w, rec, cfg, &mut n, ix); }
     let (ix, info) = w.ix_open_bundled_position("BU1", 7, "P2", -128, 128);
     if step(&mut w, rec, cfg, &mut n, ix) {
         w.positions.insert(info.name.clone(), info.clone());
